@@ -93,6 +93,9 @@ class Checker:
                 raise LvsModelError(f"Malformed node id {cur}")
             if par is not None and node.parent != par:
                 raise LvsModelError(f"Node {cur} has a wrong parent")
+            if par is None and node.parent is not None:
+                # Matching backtracks along parent links and stops at the node without parent
+                raise LvsModelError(f"Start node {cur} has a parent")
             for ve in node.v_edges:
                 if ve.dest is None or not ve.value:
                     raise LvsModelError(f"Node {cur} has a malformed edge")
